@@ -128,7 +128,16 @@ class CancelScopeEnv(EnvClass):
         I.st.scopes.pop()
         if exc is not None and exc.cls_name == "CancelledError" and rec.get("cancelled"):
             # caught by this scope unless an enclosing scope is cancelled as well
-            outer_cancelled = any(s.get("cancelled") for s in I.st.scopes)
+            # anyio: swallowed iff no cancelled parent scope is visible: none if this scope is shielded, else
+            # walk the enclosing scopes innermost first up to the first shielded one
+            outer_cancelled = False
+            if not rec.get("shield"):
+                for s in reversed(I.st.scopes):
+                    if s.get("cancelled"):
+                        outer_cancelled = True
+                        break
+                    if s.get("shield"):
+                        break
             if not outer_cancelled:
                 rec["cancelled_caught"] = True
                 if rec["kind"] == "fail_after":
